@@ -23,7 +23,7 @@ OUTSIDE = ("custom TrustZone presets in the CRC-manifest classes (mcxn/mcxa sign
            "that can hold a relocation table (separate case)")
 STUBS = B.STUBS
 MUST_REACH = ["c01\\..*"]
-OPTS = {"quick": {"case_timeout_s": 150}, "thorough": {"case_timeout_s": 2400}}
+OPTS = {"quick": {"case_timeout_s": 450}, "thorough": {"case_timeout_s": 2400}}
 
 
 def setup(symbolic):
